@@ -771,8 +771,9 @@ theorem scanStep_short (file : Bytes) (off : Nat) (h : file.length ≤ off + 18)
       split
       · rfl
       · rw [decodeBody_nil]
-    · simp [hz, hd]
-      omega
+    · simp only [hz, if_false, hd, List.length_nil]
+      have : 0 < leVal ((hb.drop 4).take 4) := by omega
+      simp [this]
 
 theorem scanStep_adv (file : Bytes) (off : Nat) (r : Record) (adv : Nat)
     (h : scanStep file off = .deliver r adv) : adv % 256 = 0 := by
@@ -824,3 +825,208 @@ theorem scanStep_zeros (pre : Bytes) (n : Nat) : scanStep (pre ++ zeros n) pre.l
     split
     · rfl
     · rw [decodeBody_nil]
+
+/-! ### a record cut anywhere, with or without a zero-filled tail (current reader) -/
+
+/-- the explicit assumption about the checksum (CRC-16 is a 16-bit code: it cannot detect everything):
+    1. a body that lost its tail to zero bytes — and is not identical to the intact body anyway — does
+       not have the CRC of the intact body;
+    2. a head cut after its 17th byte shows the length and the low CRC byte of the record: the all-zero
+       body of that length does not have that (one-byte) value as its CRC.
+    (The remaining zero-tail case, a CRC field that reads 0, needs no assumption: `crc16_zeros_ne_zero`.) -/
+def CrcDetects (r : Record) : Prop :=
+  (∀ k, k < (bodyOf r).length → (bodyOf r).take k ++ zeros ((bodyOf r).length - k) ≠ bodyOf r →
+      crc16 ((bodyOf r).take k ++ zeros ((bodyOf r).length - k)) % 65536 ≠ crc16 (bodyOf r) % 65536) ∧
+  crc16 (zeros (bodyOf r).length) % 65536 ≠ crc16 (bodyOf r) % 65536 % 256
+
+instance (r : Record) : Decidable (CrcDetects r) := by unfold CrcDetects; exact inferInstance
+
+/-- after a delivered record only zero bytes (or nothing) follow: the scan ends there -/
+theorem scanLoop_after_record (pre : Bytes) (ts crc : Nat) (r : Record) (h : WF r) (w fuel : Nat) (acc : List Record) :
+    scanLoop scanStep (fuel + 1) (pre ++ (encodeHead r.flg (bodyOf r).length ts crc ++ (bodyOf r ++ zeros w)))
+        (pre.length + encLen r) acc
+      = ⟨.eof, pre.length + encLen r, acc⟩ := by
+  have hb := encLen_bounds r h
+  by_cases hw : 18 + (bodyOf r).length + w ≤ encLen r
+  · exact scanLoop_at_end stepOK_live _ _ _ _ (by simp; omega)
+  · have hz : zeros w = zeros (encLen r - (18 + (bodyOf r).length)) ++ zeros (w - (encLen r - (18 + (bodyOf r).length))) := by
+      rw [← zeros_add]; congr 1; omega
+    have hfile : pre ++ (encodeHead r.flg (bodyOf r).length ts crc ++ (bodyOf r ++ zeros w)) =
+        (pre ++ (encodeHead r.flg (bodyOf r).length ts crc ++ (bodyOf r ++
+          zeros (encLen r - (18 + (bodyOf r).length))))) ++ zeros (w - (encLen r - (18 + (bodyOf r).length))) := by
+      rw [hz]; simp only [List.append_assoc]
+    have hlen : (pre ++ (encodeHead r.flg (bodyOf r).length ts crc ++ (bodyOf r ++
+          zeros (encLen r - (18 + (bodyOf r).length))))).length = pre.length + encLen r := by
+      simp; omega
+    rw [hfile, ← hlen]
+    exact scanLoop_eof _ _ _ _ (scanStep_zeros _ _)
+
+/-- a complete sealed head + body followed by zero bytes only: delivered, then the scan ends -/
+theorem scanLoop_sealed_zeros (pre : Bytes) (ts : Nat) (r : Record) (h : WF r) (w fuel : Nat) (acc : List Record) :
+    scanLoop scanStep (fuel + 2)
+        (pre ++ (encodeHead r.flg (bodyOf r).length ts (crc16 (bodyOf r)) ++ (bodyOf r ++ zeros w))) pre.length acc
+      = ⟨.eof, pre.length + encLen r, acc ++ [r]⟩ := by
+  have hb := encLen_bounds r h
+  rw [scanLoop_deliver (fuel + 1) _ _ acc r (encLen r) (scanStep_headbody pre _ ts r h) (by omega)]
+  exact scanLoop_after_record pre ts _ r h w fuel _
+
+theorem take_drop_take_append {α : Type} (hd t : List α) (c i j : Nat) (hc : i + j ≤ c) (hl : c ≤ hd.length) :
+    ((hd.take c ++ t).drop i).take j = (hd.drop i).take j := by
+  have h1 : i ≤ (hd.take c).length := by rw [List.length_take]; omega
+  rw [List.drop_append_of_le_length h1, List.drop_take]
+  have h2 : j ≤ (List.take (c - i) (List.drop i hd)).length := by
+    rw [List.length_take, List.length_drop]; omega
+  rw [List.take_append_of_le_length h2, List.take_take]
+  congr 1
+  omega
+
+/-- zero bytes in body position: the step ends in EOF as soon as the CRC field disagrees -/
+theorem scanStep_rawhead_zeros (pre hb : Bytes) (n : Nat) (hlen : hb.length = 18)
+    (hcrc : 0 < leVal ((hb.drop 4).take 4) →
+      crc16 (zeros (leVal ((hb.drop 4).take 4))) % 65536 ≠ leVal (hb.drop 16)) :
+    scanStep (pre ++ (hb ++ zeros n)) pre.length = .eof := by
+  rw [scanStep_rawhead pre hb _ hlen, readFull_zeros]
+  by_cases h0 : leVal ((hb.drop 4).take 4) = 0
+  · simp only [h0, if_true]
+    split
+    · rfl
+    · rw [decodeBody_nil]
+  · simp only [h0, if_false]
+    by_cases h1 : n < leVal ((hb.drop 4).take 4)
+    · simp [h1]
+    · simp only [h1, if_false]
+      rw [if_pos (hcrc (by omega))]
+
+/-- the record is cut inside its head (`c < 18`), zero bytes may follow: end of the log -/
+theorem scanStep_torn_head (pre : Bytes) (s : Stamped) (hs : Sealed s) (c z : Nat) (hd : 0 < z → CrcDetects s.r)
+    (hc : c < 18) :
+    scanStep (pre ++ ((encodeRecord s.ts s.crc s.r).take c ++ zeros z)) pre.length = .eof := by
+  obtain ⟨hwf, hcrc⟩ := hs
+  have hbl := encodeBody_length s.r.key s.r.val
+  have hWF := hwf
+  obtain ⟨hf, hb⟩ := hwf
+  by_cases hshort : c + z ≤ 18
+  · apply scanStep_short
+    simp only [List.length_append, List.length_take, zeros_length]
+    omega
+  · have hd := hd (by omega)
+    -- the head buffer: the bytes of the real head that reached the file, then zeros
+    have hE : (encodeRecord s.ts s.crc s.r).take c = (encodeHead s.r.flg (bodyOf s.r).length s.ts s.crc).take c := by
+      rw [encodeRecord_eq s.ts s.crc s.r hWF, List.append_assoc,
+        List.take_append_of_le_length (by simp; omega)]
+    have hz : zeros z = zeros (18 - c) ++ zeros (z - (18 - c)) := by
+      rw [← zeros_add]; congr 1; omega
+    rw [hE, hz, ← List.append_assoc ((encodeHead s.r.flg (bodyOf s.r).length s.ts s.crc).take c)]
+    apply scanStep_rawhead_zeros
+    · simp only [List.length_append, List.length_take, encodeHead_length, zeros_length]; omega
+    · intro hpos
+      by_cases h16 : c ≤ 16
+      · -- the CRC field reads 0
+        have : List.drop 16 ((encodeHead s.r.flg (bodyOf s.r).length s.ts s.crc).take c ++ zeros (18 - c)) = zeros 2 := by
+          rw [List.drop_append, List.drop_eq_nil_of_le (by simp; omega)]
+          simp only [List.nil_append, List.length_take, encodeHead_length, zeros, List.drop_replicate]
+          congr 1
+          omega
+        rw [this, leVal_zeros]
+        exact crc16_zeros_ne_zero _
+      · -- c = 17: length complete, low CRC byte visible
+        have hc17 : c = 17 := by omega
+        subst hc17
+        have hl : leVal ((List.drop 4 ((encodeHead s.r.flg (bodyOf s.r).length s.ts s.crc).take 17 ++ zeros (18 - 17))).take 4)
+            = (bodyOf s.r).length := by
+          rw [take_drop_take_append _ _ 17 4 4 (by omega) (by simp)]
+          exact (encodeHead_fields _ _ _ _ hf (by omega)).2.1
+        have hcr : leVal (List.drop 16 ((encodeHead s.r.flg (bodyOf s.r).length s.ts s.crc).take 17 ++ zeros (18 - 17)))
+            = s.crc % 256 := by
+          rw [List.drop_append_of_le_length (by simp), List.drop_take]
+          have : List.drop 16 (encodeHead s.r.flg (bodyOf s.r).length s.ts s.crc) = leBytes 2 s.crc := by
+            unfold encodeHead
+            exact List.drop_left' (by simp)
+          rw [this]
+          simp [leBytes, leVal, zeros]
+        rw [hl, hcr, hcrc]
+        have := hd.2
+        omega
+
+/-- **one torn record, any cut, any zero tail** (current reader): the loop ends with EOF and has
+    delivered nothing, or exactly the record that was being written. -/
+theorem scanLoop_torn (pre : Bytes) (s : Stamped) (hs : Sealed s) (c z fuel : Nat) (hd : 0 < z → CrcDetects s.r)
+    (acc : List Record) :
+    (c < 18 + (bodyOf s.r).length ∧
+      ∃ o, scanLoop scanStep (fuel + 2) (pre ++ ((encodeRecord s.ts s.crc s.r).take c ++ zeros z)) pre.length acc
+        = ⟨.eof, o, acc⟩) ∨
+    (18 + (bodyOf s.r).length ≤ c + z ∧
+      ∃ o, scanLoop scanStep (fuel + 2) (pre ++ ((encodeRecord s.ts s.crc s.r).take c ++ zeros z)) pre.length acc
+        = ⟨.eof, o, acc ++ [s.r]⟩) := by
+  have hWF := hs.1
+  have hcrc := hs.2
+  have hb := encLen_bounds s.r hWF
+  obtain ⟨hf, hbl⟩ := hWF
+  have hne := bodyOf_ne_nil s.r
+  have hblpos : 0 < (bodyOf s.r).length := by
+    cases hq : bodyOf s.r with
+    | nil => exact absurd hq hne
+    | cons a t => simp
+  by_cases hc18 : c < 18
+  · -- cut inside the head
+    left
+    exact ⟨by omega, _, scanLoop_eof _ _ _ _ (scanStep_torn_head pre s hs c z hd hc18)⟩
+  · by_cases hcb : 18 + (bodyOf s.r).length ≤ c
+    · -- cut behind the body: head ++ body ++ zeros
+      right
+      have hE : (encodeRecord s.ts s.crc s.r).take c =
+          encodeHead s.r.flg (bodyOf s.r).length s.ts s.crc ++ (bodyOf s.r ++
+            zeros (min (c - 18 - (bodyOf s.r).length) (encLen s.r - (18 + (bodyOf s.r).length)))) := by
+        rw [encodeRecord_eq s.ts s.crc s.r hs.1, List.append_assoc, List.take_append,
+          List.take_of_length_le (by simp; omega), List.take_append,
+          List.take_of_length_le (by simp; omega)]
+        simp only [encodeHead_length, zeros, List.take_replicate]
+      rw [hE, hcrc]
+      simp only [List.append_assoc, ← zeros_add]
+      exact ⟨by omega, _, scanLoop_sealed_zeros pre s.ts s.r hs.1 _ fuel acc⟩
+    · -- cut inside the body
+      have hE : (encodeRecord s.ts s.crc s.r).take c =
+          encodeHead s.r.flg (bodyOf s.r).length s.ts s.crc ++ (bodyOf s.r).take (c - 18) := by
+        rw [encodeRecord_eq s.ts s.crc s.r hs.1, List.append_assoc, List.take_append,
+          List.take_of_length_le (by simp; omega), List.take_append_of_le_length (by simp; omega)]
+        simp
+      rw [hE]
+      by_cases hT : (bodyOf s.r).take (c - 18) ++ zeros ((bodyOf s.r).length - (c - 18)) = bodyOf s.r ∧
+          (bodyOf s.r).length - (c - 18) ≤ z
+      · -- only zero bytes were lost and the tail supplies them: the record is intact
+        right
+        have hz : zeros z = zeros ((bodyOf s.r).length - (c - 18)) ++ zeros (z - ((bodyOf s.r).length - (c - 18))) := by
+          rw [← zeros_add]; congr 1; omega
+        have hfile : pre ++ ((encodeHead s.r.flg (bodyOf s.r).length s.ts s.crc ++ (bodyOf s.r).take (c - 18)) ++ zeros z)
+            = pre ++ (encodeHead s.r.flg (bodyOf s.r).length s.ts (crc16 (bodyOf s.r)) ++ (bodyOf s.r ++
+                zeros (z - ((bodyOf s.r).length - (c - 18))))) := by
+          rw [hz, hcrc]
+          simp only [List.append_assoc]
+          rw [← List.append_assoc ((bodyOf s.r).take (c - 18)), hT.1]
+        rw [hfile]
+        exact ⟨by omega, _, scanLoop_sealed_zeros pre s.ts s.r hs.1 _ fuel acc⟩
+      · left
+        refine ⟨by omega, _, scanLoop_eof _ _ _ _ ?_⟩
+        rw [List.append_assoc, scanStep_head pre _ _ _ _ _ hf (by omega)]
+        unfold readFull
+        have hl0 : ¬ ((bodyOf s.r).length = 0) := by omega
+        rw [if_neg hl0, List.drop_zero]
+        by_cases hlen : ((bodyOf s.r).take (c - 18) ++ zeros z).length < (bodyOf s.r).length
+        · rw [if_pos hlen]
+        · rw [if_neg hlen]
+          simp only
+          have hk : ((bodyOf s.r).take (c - 18)).length = c - 18 := by
+            rw [List.length_take]; omega
+          have hzl : (bodyOf s.r).length - (c - 18) ≤ z := by
+            simp only [List.length_append, hk, zeros_length] at hlen; omega
+          have htake : List.take (bodyOf s.r).length ((bodyOf s.r).take (c - 18) ++ zeros z)
+              = (bodyOf s.r).take (c - 18) ++ zeros ((bodyOf s.r).length - (c - 18)) := by
+            rw [List.take_append, List.take_of_length_le (by omega), hk]
+            simp only [zeros, List.take_replicate]
+            congr 2
+            omega
+          rw [htake]
+          have hneq : (bodyOf s.r).take (c - 18) ++ zeros ((bodyOf s.r).length - (c - 18)) ≠ bodyOf s.r :=
+            fun h => hT ⟨h, hzl⟩
+          have := (hd (by omega)).1 (c - 18) (by omega) hneq
+          rw [hcrc, if_pos this]
